@@ -250,7 +250,7 @@ Proof.
   - intros j Hj Hrj. destruct (Nat.eq_dec j a) as [->|Hne]; [exact HQ2a2|].
     apply (Q2row_ext pb wqs); [apply Hrow_other, Hne|apply Pq2; assumption].
   - intros Hu. apply orb_false_iff in Hu. destruct Hu as [Hu1 Hu2]. specialize (Ptight Hu1).
-    apply Z.gtb_ltb, Z.ltb_ge in Hu2.
+    rewrite Z.gtb_ltb in Hu2. apply Z.ltb_ge in Hu2.
     intros x y Hxy. destruct (Nat.eq_dec x a) as [->|Hne].
     + assert (y = b) by congruence. subst y.
       unfold topc at 1. rewrite Eq2.
@@ -344,13 +344,15 @@ Proof.
   assert (E1 : exists m1, run_loop 519 (chain_fuel (nsnk pb)) (walk1_body s) (sink, q) = Ok (root, m1)).
   { pose proof (walk1_safe pb Hcaps s sink q (chain_fuel (nsnk pb)) HI Hq) as Hs1.
     destruct (walk1_terminates s (chain_fuel (nsnk pb)) sink q l root Hch (chain_fuel_enough _ _ Hlen)) as (r1 & Er1).
-    unfold run_loop in *. rewrite Er1 in *.
     pose proof (loopP_inv (fun _ => True) (fun r : res (nat * Z) => forall e, r = Fail e -> ~ okf e) (walk1_body s)) as Hf.
     specialize (Hf ltac:(intros w _; destruct (walk1_body s w) as [w'|r] eqn:E; [exact I|];
                          intros e ->; exact (walk1_body_fail _ _ _ E)) (chain_fuel (nsnk pb)) (sink, q) I).
-    rewrite Er1 in Hf. destruct r1 as [[root' m1]|e]; [|exfalso; exact (Hf e eq_refl Hs1)].
-    destruct (walk1_spec _ _ _ _ _ _ Hq Er1) as (l' & Hch' & _).
-    destruct (chain_det _ _ _ _ Hch _ _ Hch') as [_ <-]. exists m1. reflexivity. }
+    rewrite Er1 in Hf.
+    assert (Erl : run_loop 519 (chain_fuel (nsnk pb)) (walk1_body s) (sink, q) = r1) by (unfold run_loop; rewrite Er1; reflexivity).
+    rewrite Erl in Hs1.
+    destruct r1 as [[root' m1]|e]; [|exfalso; exact (Hf e eq_refl Hs1)].
+    destruct (walk1_spec _ _ _ _ _ _ Hq Erl) as (l' & Hch' & _).
+    destruct (chain_det _ _ _ _ Hch _ _ Hch') as [_ <-]. exists m1. exact Erl. }
   destruct E1 as (m1 & E1). rewrite E1. cbn [bind].
   destruct (walk1_spec _ _ _ _ _ _ Hq E1) as (l' & Hch' & Hm1 & Hgood).
   destruct (chain_det _ _ _ _ Hch _ _ Hch') as [<- _]. clear Hch'.
@@ -369,7 +371,6 @@ Proof.
   { pose proof (walk2_safe pb Hcaps s src sink root l mx (chain_fuel (nsnk pb)) HI Hch Hmx Hgood' Hsrc) as Hs2.
     destruct (walk2_terminates pb (parent s) (rem s) mx (chain_fuel (nsnk pb)) (mkW2 (alloc s) (queues s) sink src false)
                 l root Hch (chain_fuel_enough _ _ Hlen)) as (r2 & Er2).
-    unfold run_loop in *. rewrite Er2 in *.
     pose proof (loopP_inv (fun _ => True) (fun r : res W2 => forall e, r = Fail e -> ~ okf e)
                           (walk2_body pb (parent s) (rem s) mx)) as Hf.
     specialize (Hf ltac:(intros w _; unfold walk2_body; destruct (nth (w_snk w) (parent s) None) as [b|];
@@ -377,7 +378,11 @@ Proof.
                           intros e [= <-]; exact (walk2_step_fail _ _ _ _ _ _ E)
                          |intros e; discriminate])
                   (chain_fuel (nsnk pb)) (mkW2 (alloc s) (queues s) sink src false) I).
-    rewrite Er2 in Hf. destruct r2 as [w|e]; [exists w; reflexivity|exfalso; exact (Hf e eq_refl Hs2)]. }
+    rewrite Er2 in Hf.
+    assert (Erl : run_loop 532 (chain_fuel (nsnk pb)) (walk2_body pb (parent s) (rem s) mx)
+                    (mkW2 (alloc s) (queues s) sink src false) = r2) by (unfold run_loop; rewrite Er2; reflexivity).
+    rewrite Erl in Hs2.
+    destruct r2 as [w|e]; [exists w; exact Erl|exfalso; exact (Hf e eq_refl Hs2)]. }
   destruct E2 as (w & E2). rewrite E2. cbn [bind].
   destruct (walk2_spec pb s src sink root l mx Hsh Hpos Hch Hmx Hgood' Hsrc _ _ E2)
     as (Ew & Hshw & Hposw & Hrsw & Hcsw & Hws).
@@ -432,7 +437,7 @@ Proof.
       + apply andb_true_iff in E. destruct E as [Ej Ei]. apply Nat.eqb_eq in Ej, Ei. subst j i.
         intros _. apply Ptr, Hk.
       + apply Ppos; assumption. }
-  assert (Hcol : forall i, (i < m)%nat -> colsum n al i = colsum n (alloc s) i + delta i src * mx).
+  assert (Hcol : forall i, (i < nsrc pb)%nat -> colsum (nsnk pb) al i = colsum (nsnk pb) (alloc s) i + delta i src * mx).
   { intros i Hi. unfold al. rewrite (colsum_upd2 (nsnk pb) (nsrc pb)) by assumption.
     specialize (Hcsw i Hi). unfold delta in *. destruct (i =? w_src w)%nat; lia. }
   destruct (w_upd w || full) eqn:Eu.
@@ -449,9 +454,10 @@ Proof.
       * exists (getZ (scost s2)). split; [exact (HPot2 Hf)|]. intros _ j _. reflexivity.
       * exists (getZ (scost s)). split; [exact HPot1|]. intros Hf. contradiction.
   - (* the tree is kept *)
-    cbn [bind]. apply orb_false_iff in Eu. destruct Eu as [Eupd Ef]. subst full.
-    symmetry in Ef. apply Z.eqb_neq in Ef. rewrite Erm, Nat.eqb_refl in Ef.
-    assert (Eqs : qs = w_qs w) by (unfold qs; rewrite Erm, Nat.eqb_refl; destruct (_ =? 0) eqn:E0; [apply Z.eqb_eq in E0; lia|reflexivity]).
+    cbn [bind]. apply orb_false_iff in Eu. destruct Eu as [Eupd Ef0].
+    assert (Eqs : qs = w_qs w) by (unfold qs; rewrite Ef0; reflexivity).
+    assert (Ef : getZ (rem s) root - mx <> 0).
+    { rewrite Ef0 in Efull. symmetry in Efull. apply Z.eqb_neq in Efull. rewrite Erm, Nat.eqb_refl in Efull. exact Efull. }
     split; [|split; [|split; [exact Eft|split; [lia|exact Hcol]]]].
     + unfold Inv. cbn [alloc rem queues scost parent]. split; [exact (HG1 _ _)|]. split; [exact Hlq1|]. split; [exact HQ1|].
       split; [|split].
